@@ -312,6 +312,8 @@ def _equivalents(rng):
         x, y = np.arange(n, dtype=float), np.arange(n, dtype=float) * 2
         if not np.array_equal(np.column_stack((x, y)), np.c_[x, y]):
             return "column_stack"
+        if np.atleast_1d(x) is not x or np.atleast_1d(a) is not a:
+            return "atleast_1d of an array with an axis is the array"
     return None
 
 
@@ -328,7 +330,7 @@ AUDITS = [
     ("T-np.mask_select", _mask_select), ("T-np.delete", _delete), ("T-np.vstack", _vstack), ("T-np.ravel C-order of rank-2", _ravel2),
     ("T-np.ravel C-order of rank-3", _ravel3), ("T-np.modf", _modf), ("T-np.astype", _astype), ("T-np.min/max", _extrema), ("T-np.max/min", _extrema),
     ("T-np.meshgrid", _meshgrid), ("T-np.cumsum", _cumsum), ("T-np.sum", _cumsum), ("T-np.fancy assignment", _fancy_assign), ("T-np.divide", _divide),
-    ("T-np.true division", _truediv), ("T-np.compress", _equivalents), ("T-np.column_stack", _equivalents), ("T-np.argsort", _argsort), ("T-np.diff", _argsort), ("T-np.reshape", _argsort), ("T-rec.fromarrays", _rec), ("T-py.uuid4", _uuid), ("T-py.str(uuid)", _uuid), ("T-py.UUID(str)", _uuid),
+    ("T-np.true division", _truediv), ("T-np.compress", _equivalents), ("T-np.column_stack", _equivalents), ("T-np.atleast_1d", _equivalents), ("T-np.argsort", _argsort), ("T-np.diff", _argsort), ("T-np.reshape", _argsort), ("T-rec.fromarrays", _rec), ("T-py.uuid4", _uuid), ("T-py.str(uuid)", _uuid), ("T-py.UUID(str)", _uuid),
     ("T-py.str concat", _concat), ("T-py.entities are truthy", _entities_truthy), ("T-h5: a geoh5 file has exactly one", _one_project), ("T-h5", _h5),
 ]
 # names that assume nothing (a function left uninterpreted) or a modelling choice that no test can confirm
